@@ -283,6 +283,18 @@ static void run_c06(long cases) {
         c06_connection(srv, idx++, ws, {}, false, 4096, r.range(50, 300), base); base += 8;
         count("backpressure_runs");
     }
+    // (3b) the same with a slow acceptor: the acceptor thread is held for 150 ms right after it has handed the connection to the worker, so
+    //      the worker registers the peer and parks its first writes on a would-block before the acceptor has finished its own part
+    lv::ip().acceptorDelayMs = 150;
+    for (long n = 0; n < std::max<long>(2, cases / 12); n++) {
+        int nw = r.range(1, 2);
+        std::vector<WriteSpec> ws;
+        for (int i = 0; i < nw; i++) ws.push_back({(size_t)r.range(300000, 2500000), r.chance(1, 3), false});
+        c06_connection(srv, idx++, ws, {}, false, 4096, r.range(350, 500), base); base += 8;
+        count("backpressure_runs_with_a_slow_acceptor");
+    }
+    lv::ip().acceptorDelayMs = 0;
+    count("acceptor_delays_injected", lv::ip().acceptorDelays.load());
     // (4) a connection that goes away with a write still pending, then new connections (the descriptor number is reused):
     //     each must receive exactly its own stream
     for (long n = 0; n < std::max<long>(3, cases / 20); n++) {
